@@ -12,7 +12,7 @@ FINISH = dict(rule='behaviours of AntennaHits.tla (all interleavings of receive 
 def run(r):
     thorough = r.tier == 'thorough'
     for cfg in ('AntennaHits_ant.cfg', 'AntennaHits_sys.cfg', 'AntennaHits_noisy.cfg'):
-        r.model_check('AntennaHitsMC', cfg)
+        r.model_check('AntennaHitsMC', cfg.replace('.cfg', '_thorough.cfg') if thorough else cfg)
     r.exhaustive = True
     rng = random.Random(r.seed)
     for cfg, kw in (('AntennaHits_graph.cfg', dict(kind='antenna')), ('AntennaHits_graphsys.cfg', dict(kind='system', lead=True))):
